@@ -23,6 +23,8 @@ def run(ctx):
     ctx.rule("R01.3", "one consumer, one hand-over: the event queue is read only in throttle_collect; the action handler is called only in "
                       "worker(), once per collected batch, with the batch taken from the returned set; an async handler is awaited")
     ctx.rule("R01.4", "source priority table: Interrupt/Terminate -> Urgent, other signals -> High, keyboard EOF -> Normal (as documented on Priority), fs events -> Normal")
+    ctx.rule("R01.6", "signal source table: each OS signal listener (SignalKind::x) is paired, through its position in the select!, with the "
+                      "Signal variant of the same meaning (hangup->Hangup, interrupt->Interrupt, quit->Quit, terminate->Terminate, usr1->User1, usr2->User2)")
     ctx.rule("R01.5", "no silent loss at the sources: a failed send/try_send of an event is reported on the error channel")
     facts = ctx.facts
     try:
@@ -194,6 +196,59 @@ def run(ctx):
                         ok = True
         ctx.require(len(sends) == 1 and ok, "R01.4", "fs-priority", "filesystem events are queued once each at Normal priority", pe.loc(pe.line),
                     fail="filesystem events are not queued exactly once at Normal priority")
+    except Skip:
+        pass
+
+    # ---- R01.6 signal listeners <-> Signal variants
+    try:
+        sw = ctx.anchor_one("R01.6", "unix signal worker coroutine", [c for c in facts.fns_matching(r"^watchexec::sources::signal::imp_worker::\{closure#\d+\}$") if c.kind == "coroutine"])
+        cfgw = CFG(sw)
+        tuples = [(b.idx, st) for b in sw.blocks for st in b.stmts if st.kind == "=" and st.rv.kind == "agg" and st.rv.extra[0] == "tuple" and len(st.rv.ops) >= 2
+                  and all(any(a.kind == "call" and sw.blocks[a.data].term.callee.is_("tokio::signal::unix::Signal::recv") for a in origins(sw, op)) for op in st.rv.ops)]
+        tuples = [x for x in tuples if all(cfgw.dominates(x[0], y[0]) for y in tuples)]
+        if len(tuples) != 1:
+            ctx.violation("R01.6", "floor:select-tuple", "the select! over the signal listeners was not found", sw.loc(sw.line))
+        else:
+            tb, tst = tuples[0]
+            kinds = []
+            for op in tst.rv.ops:
+                k = None
+                for a in origins(sw, op):
+                    if a.kind == "call" and sw.blocks[a.data].term.callee.is_("tokio::signal::unix::Signal::recv"):
+                        for b2 in origins(sw, sw.blocks[a.data].term.args[0], VALUE_CALLS + ("core::ops::try_trait::Try::branch", "core::result::Result::map_err")):
+                            if b2.kind == "call" and sw.blocks[b2.data].term.callee.is_("tokio::signal::unix::signal"):
+                                for c3 in origins(sw, sw.blocks[b2.data].term.args[0]):
+                                    if c3.kind == "call":
+                                        k = strip_generics(sw.blocks[c3.data].term.callee.def_).split("::")[-1]
+                kinds.append(k)
+            # the switch on the select output: value i -> Signal aggregate
+            S = "watchexec_signals::Signal"
+            aggs = {}
+            for b in sw.blocks:
+                for st in b.stmts:
+                    if st.kind == "=" and st.rv.kind == "agg" and st.rv.agg_adt() and st.rv.agg_adt()[0] == S and not st.rv.ops:
+                        aggs[b.idx] = st.rv.agg_adt()[1]
+            outsw = None
+            for b in sw.blocks:
+                t = b.term
+                if t.kind == "switch" and len(t.cases) >= len(kinds) and cfgw.dominates(tb, b.idx):
+                    reach = [set(cfgw.reachable_from(tt, avoid=[x for _, x in t.cases if x != tt] + [t.otherwise])) & set(aggs) for _, tt in t.cases]
+                    if sum(1 for r in reach if len(r) == 1) >= len(kinds):
+                        outsw = (t, reach)
+                        break
+            want = {"hangup": "Hangup", "interrupt": "Interrupt", "quit": "Quit", "terminate": "Terminate", "user_defined1": "User1", "user_defined2": "User2"}
+            if outsw is None:
+                ctx.violation("R01.6", "floor:select-output", "the dispatch on the select! output was not found", sw.loc(sw.line))
+            else:
+                t, reach = outsw
+                ctx.floor("R01.6", "signal listeners", len([k for k in kinds if k]), 6)
+                for (v, tt), r in zip(t.cases, reach):
+                    if v >= len(kinds) or len(r) != 1:
+                        continue
+                    got = aggs[next(iter(r))]
+                    k = kinds[v]
+                    ctx.require(want.get(k) == got, "R01.6", "signal-source:%s" % k, "the %s listener produces Signal::%s" % (k, got), sw.loc(sw.line),
+                                fail="the OS signal listener for `%s` produces Signal::%s (expected %s): signals are reported as the wrong kind" % (k, got, want.get(k)))
     except Skip:
         pass
 
